@@ -219,6 +219,13 @@ func c16RelsCase(c *ctx, ts []jsonapi.Type, coherent bool) {
 					key, detail = "rels-unstable-between-calls", descRels(got)+" vs "+descRels(got3)
 				}
 			}
+			// oracle 4: the same schema built through the editing API, with Rels() consulted
+			// between the edits, lists the same relationships
+			if key == "" {
+				if got4, ok := relsThroughEdits(c.r, ts); ok && !reflect.DeepEqual(got, got4) && !(len(got) == 0 && len(got4) == 0) {
+					key, detail = "rels-depend-on-edit-history", descRels(got)+" vs, built by edits, "+descRels(got4)
+				}
+			}
 		}
 	}
 	nrels := 0
@@ -229,6 +236,84 @@ func c16RelsCase(c *ctx, ts []jsonapi.Type, coherent bool) {
 	c.count(fmt.Sprintf("rels:coherent=%v", coherent))
 	k := c.add("rels", gSchema(s), feature, nrels == 0, "(run_schema_rels "+gSchema(s)+")", obs, key, detail)
 	k.Replay = "schema " + gSchema(s)
+}
+
+// relsThroughEdits builds the schema with AddType (attributes only), then AddRel /
+// AddTwoWayRel for every relationship, calling Rels() between the edits; ok is
+// false when the API refuses one of the edits or the result is not the schema wanted.
+func relsThroughEdits(r *rng, ts []jsonapi.Type) (out []jsonapi.Rel, ok bool) {
+	defer func() {
+		if recover() != nil {
+			ok = false
+		}
+	}()
+	s := &jsonapi.Schema{}
+	for _, t := range ts {
+		bare := jsonapi.Type{Name: t.Name, Attrs: map[string]jsonapi.Attr{}, Rels: map[string]jsonapi.Rel{}}
+		for k, a := range t.Attrs {
+			bare.Attrs[k] = a
+		}
+		if s.AddType(bare) != nil {
+			return nil, false
+		}
+	}
+	_ = s.Rels()
+	type item struct {
+		tn string
+		r  jsonapi.Rel
+	}
+	var todo []item
+	for _, t := range ts {
+		for _, rel := range t.Rels {
+			todo = append(todo, item{t.Name, rel})
+		}
+	}
+	shuffle(r, todo)
+	done := map[[2]string]bool{}
+	for _, it := range todo {
+		if done[[2]string{it.tn, it.r.FromName}] {
+			continue
+		}
+		// a reciprocated pair goes in with one AddTwoWayRel call
+		twoWay := false
+		if it.r.ToName != "" && it.r.FromType == it.tn {
+			for _, t := range ts {
+				if t.Name == it.r.ToType {
+					if inv, has := t.Rels[it.r.ToName]; has && inv == it.r.Invert() && !(it.r.FromType == it.r.ToType && it.r.FromName == it.r.ToName) {
+						twoWay = true
+					}
+				}
+			}
+		}
+		if twoWay {
+			if s.AddTwoWayRel(it.r) != nil {
+				return nil, false
+			}
+			done[[2]string{it.tn, it.r.FromName}] = true
+			done[[2]string{it.r.ToType, it.r.ToName}] = true
+		} else {
+			if s.AddRel(it.tn, it.r) != nil {
+				return nil, false
+			}
+			done[[2]string{it.tn, it.r.FromName}] = true
+		}
+		if r.bool() {
+			_ = s.Rels()
+		}
+	}
+	// the schema built is the schema wanted
+	for _, t := range ts {
+		bt := s.GetType(t.Name)
+		if len(bt.Rels) != len(t.Rels) {
+			return nil, false
+		}
+		for k, rel := range t.Rels {
+			if bt.Rels[k] != rel {
+				return nil, false
+			}
+		}
+	}
+	return s.Rels(), true
 }
 
 var c16Names = []string{"", "a", "b", "ab", "bc", "c"}
